@@ -375,7 +375,7 @@ pub fn kyg_files(r: &mut Rng, n: usize, findings: &mut Vec<Value>, texts: &mut V
 }
 
 /// NewBDL_O.tbl: header, counts, (name, values) pairs for elements and spaces
-pub fn tbl_files(r: &mut Rng, n: usize, out_dir: &str, findings: &mut Vec<Value>) -> Value {
+pub fn tbl_files(r: &mut Rng, n: usize, out_dir: &str, findings: &mut Vec<Value>, texts: &mut Vec<String>) -> Value {
     let mut fields = 0usize;
     let path = format!("{}/c18-scratch.tbl", out_dir);
     for doc in 0..n {
@@ -405,6 +405,7 @@ pub fn tbl_files(r: &mut Rng, n: usize, out_dir: &str, findings: &mut Vec<Value>
         }
         let eol = if crlf { "\r\n" } else { "\n" };
         let text = lines.join(eol) + eol;
+        texts.push(text.clone());
         if std::fs::write(&path, text.as_bytes()).is_err() {
             continue;
         }
@@ -489,4 +490,39 @@ pub fn kyg_case(text: &str) -> (String, usize) {
         Err(_) => ("KPanic".to_string(), 2),
     };
     (format!("CKyg (mkKC {}\n ({}))", clines(text), it), cls)
+}
+
+/// a NewBDL_O.tbl text with what hulc::tbl::parse makes of it, as a Coq case
+pub fn tbl_case(text: &str, scratch: &str) -> (String, usize) {
+    use crate::p18::{clines, cstr};
+    let bytes: Vec<u8> = text.chars().map(|c| if (c as u32) < 256 { c as u32 as u8 } else { b'?' }).collect();
+    let _ = std::fs::write(scratch, bytes);
+    let p = scratch.to_string();
+    let (it, cls) = match crate::guarded(std::panic::AssertUnwindSafe(move || hulc::tbl::parse(&p).map_err(|e| e.to_string()))) {
+        Ok(Ok(t)) => {
+            let es: Vec<String> = t
+                .elements
+                .iter()
+                .map(|(k, e)| {
+                    let vals = [e.area, e.u, e.w_or_inf, e.g_winter, e.g_summer, e.ang_north, e.tilt];
+                    let ty: i32 = match format!("{:?}", e.type_).as_str() {
+                        "EXTWALL" => 0,
+                        "WINDOW" => 1,
+                        "DOOR" => 2,
+                        "ADBWALL" => -2,
+                        "GNDWALL" => -3,
+                        "INTWALL" => -4,
+                        _ => -5,
+                    };
+                    format!("mkIE {} [{}] {} {} {}", cstr(k), vals.iter().map(|x| num(*x)).collect::<Vec<_>>().join("; "), crate::coq::z(ty as i128), crate::coq::z(e.id_surf as i128), crate::coq::z(e.id_space as i128))
+                })
+                .collect();
+            let ss: Vec<String> = t.spaces.iter().map(|(k, s)| format!("mkIS {} {} {} {} {}", cstr(k), crate::coq::z(s.id_space as i128), crate::coq::z(s.mult as i128), num(s.area), num(s.qint))).collect();
+            (format!("TOk [{}] [{}]", es.join("; "), ss.join("; ")), 0)
+        }
+        Ok(Err(_)) => ("TErr".to_string(), 1),
+        Err(_) => ("TPanic".to_string(), 2),
+    };
+    // the text as the parser sees it (latin-1 file read back as characters)
+    (format!("CTbl (mkTC {}\n ({}))", clines(text), it), cls)
 }
